@@ -52,6 +52,7 @@ func pEnc(t *pty, v *pval) {
 		skip()
 		return
 	}
+	trace("p.enc", t.String()+"|"+v.String())
 	impl := guarded(func() string {
 		x := t.toGo(v).Addr().Interface()
 		n := proto.Size(x)
@@ -120,6 +121,7 @@ func pMarshalTo(t *pty, v *pval, l int) {
 		skip()
 		return
 	}
+	trace("p.mto", t.String()+"|"+v.String()+"|"+strconv.Itoa(l))
 	var size int
 	var full []byte
 	impl := guarded(func() string {
@@ -165,6 +167,7 @@ func pDecodeExpect(t *pty, b []byte, expect string) {
 		skip()
 		return
 	}
+	trace("p.dec", t.String()+"|"+hexs(b))
 	impl := guarded(func() string {
 		y := reflect.New(t.goType())
 		if err := proto.Unmarshal(b, y.Interface()); err != nil {
